@@ -136,7 +136,11 @@ mod model {
         fn next(&mut self) -> Option<K> {
             self.inner.next().map(|(k, _)| k)
         }
+        fn size_hint(&self) -> (usize, Option<usize>) {
+            self.inner.size_hint()
+        }
     }
+    impl<K, V> ExactSizeIterator for IntoKeys<K, V> {}
     pub struct IntoValues<K, V> {
         inner: std::vec::IntoIter<(K, V)>,
     }
@@ -145,7 +149,11 @@ mod model {
         fn next(&mut self) -> Option<V> {
             self.inner.next().map(|(_, v)| v)
         }
+        fn size_hint(&self) -> (usize, Option<usize>) {
+            self.inner.size_hint()
+        }
     }
+    impl<K, V> ExactSizeIterator for IntoValues<K, V> {}
 
     macro_rules! common_map_api {
         () => {
